@@ -437,6 +437,8 @@ func ruleA18Payload(r *Run, p *Prog, encFns []*ssa.Function, prefix *ssa.Functio
 			// payload after the header: a spread append of subject, or a range loop over subject with one appender call per element
 			okc := false
 			what := ""
+			var alts []*ssa.Call
+			var altFacts rangeLoopFacts
 			eachInstr(f, func(b *ssa.BasicBlock, i int, in ssa.Instruction) {
 				c, isC := in.(*ssa.Call)
 				if !isC {
@@ -488,7 +490,41 @@ func ruleA18Payload(r *Run, p *Prog, encFns []*ssa.Function, prefix *ssa.Functio
 					okc = true
 					what = "one item per element of the same slice"
 				}
+				if ok && facts.NoEarlyExit && facts.RangeAll && facts.Element {
+					alts = append(alts, c)
+					altFacts = facts
+				}
 			})
+			// alternatives: `if useInt { AppendInt64(…vals[i]…) } else { AppendFloat64(…vals[i]…) }` —
+			// every iteration runs exactly one of the element appenders
+			if !okc && len(alts) > 1 && altFacts.Complete && len(altFacts.Paths) > 0 {
+				each := true
+				for _, pa := range altFacts.Paths {
+					cnt := 0
+					for _, b := range pa.blocks {
+						for _, in := range b.Instrs {
+							for _, a := range alts {
+								if in == ssa.Instruction(a) {
+									cnt++
+								}
+							}
+						}
+					}
+					if cnt != 1 {
+						each = false
+					}
+				}
+				sameLoop := true
+				for _, a := range alts {
+					if !loopBlocks(altFacts.Hdr)[a.Block()] {
+						sameLoop = false
+					}
+				}
+				if each && sameLoop {
+					okc = true
+					what = "one item per element of the same slice (one of several alternative appenders per iteration)"
+				}
+			}
 			r.Ob("A18", FnName(f)+"/length-matches-payload", p.Pos(h.Pos()), okc, true, tern(okc, "definite length = len(x); "+what, "the definite-length header counts len("+descr(subject)+") but the payload that follows is not exactly that value's elements (one item each): the declared length does not match the content"))
 		}
 	}
